@@ -111,40 +111,54 @@ const T0: u64 = 1_700_000_000_000_000_000;
 
 /// Mask the randomised root id wherever it occurs: whatever token the root <svg> carries as
 /// its id (the one permitted exception) is replaced throughout the output.
-fn mask_local_id(b: &[u8]) -> Vec<u8> {
-    let text = String::from_utf8_lossy(b);
-    if let Some(p) = text.find("<svg") {
-        let tag_end = text[p..].find('>').map(|e| p + e).unwrap_or(text.len());
-        let tag = &text[p..tag_end];
-        if let Some(i) = tag.find(" id=\"") {
-            let rest = &tag[i + 5..];
-            if let Some(e) = rest.find('"') {
-                let id = &rest[..e];
-                if id.len() >= 6 {
-                    return text.replace(id, "LOCAL-STYLE-ID").into_bytes();
-                }
-            }
-        }
+/// The one permitted exception: the randomised id emitted when local styles are requested.
+/// Nothing about its format is assumed: the id is whatever token differs first between the
+/// two outputs, provided that in BOTH it is used as the local-style id - the root element's
+/// `id`, or a `#token {` selector inside the generated <style> block. Every occurrence of it
+/// is then replaced by one placeholder; any other difference remains a difference.
+fn mask_local_id_pair(a: &[u8], b: &[u8]) -> (Vec<u8>, Vec<u8>) {
+    if a == b {
+        return (a.to_vec(), b.to_vec());
     }
-    mask_local_id_pattern(b)
-}
-
-fn mask_local_id_pattern(b: &[u8]) -> Vec<u8> {
-    // replace svgdx-[0-9a-f]{8} by svgdx-XXXXXXXX
-    let pat = b"svgdx-";
-    let mut out = b.to_vec();
-    let mut i = 0;
-    while i + pat.len() + 8 <= out.len() {
-        if &out[i..i + pat.len()] == pat && out[i + 6..i + 14].iter().all(|c| c.is_ascii_hexdigit()) {
-            for c in &mut out[i + 6..i + 14] {
-                *c = b'X';
-            }
-            i += 14;
+    let n = a.iter().zip(b.iter()).take_while(|(x, y)| x == y).count();
+    let is_tok = |c: u8| c.is_ascii_alphanumeric() || c == b'-' || c == b'_';
+    let token_at = |t: &[u8]| -> Option<String> {
+        let mut lo = n.min(t.len());
+        while lo > 0 && is_tok(t[lo - 1]) {
+            lo -= 1;
+        }
+        let mut hi = n.min(t.len());
+        while hi < t.len() && is_tok(t[hi]) {
+            hi += 1;
+        }
+        if hi - lo >= 6 {
+            String::from_utf8(t[lo..hi].to_vec()).ok()
         } else {
-            i += 1;
+            None
         }
+    };
+    let (Some(ta), Some(tb)) = (token_at(a), token_at(b)) else {
+        return (a.to_vec(), b.to_vec());
+    };
+    let is_local_id = |t: &[u8], tok: &str| -> bool {
+        let text = String::from_utf8_lossy(t);
+        let root = text.find("<svg").map(|p| {
+            let end = text[p..].find('>').map(|e| p + e).unwrap_or(text.len());
+            text[p..end].contains(&format!(" id=\"{tok}\""))
+        });
+        let style = text.find("<style").map(|p| {
+            let end = text[p..].find("</style>").map(|e| p + e).unwrap_or(text.len());
+            let st = &text[p..end];
+            st.contains(&format!("#{tok} {{")) || st.contains(&format!("#{tok}{{"))
+        });
+        root == Some(true) || style == Some(true)
+    };
+    if ta == tb || !is_local_id(a, &ta) || !is_local_id(b, &tb) {
+        return (a.to_vec(), b.to_vec());
     }
-    out
+    let ma = String::from_utf8_lossy(a).replace(&ta, "LOCAL-STYLE-ID").into_bytes();
+    let mb = String::from_utf8_lossy(b).replace(&tb, "LOCAL-STYLE-ID").into_bytes();
+    (ma, mb)
 }
 
 fn region_of_difference(a: &[u8], b: &[u8]) -> &'static str {
@@ -512,7 +526,7 @@ impl Engine for C06 {
                     (Outcome::Ok(a), Outcome::Ok(b)) => {
                         let (a, b) = if local && *c != c0 {
                             res.stats.probe("local_id_masked_compare");
-                            (mask_local_id(a), mask_local_id(b))
+                            mask_local_id_pair(a, b)
                         } else {
                             (a.clone(), b.clone())
                         };
